@@ -431,5 +431,39 @@ components:
     Error: {description: err, headers: {X-Err: {schema: {type: string}}}, content: {application/json: {schema: {$ref: '#/components/schemas/Err'}}}}
     Created: {description: created, headers: {Location: {required: true, schema: {type: string}}}}
 `
-	return []CorpusEntry{{Name: "resp-matrix", Spec: writeSpec(filepath.Join(dir, "resp-matrix"), "openapi", spec), Group: "response-matrix"}}
+	spec2 := specHead + `paths:
+  /pets:
+    get: {responses: {'200': {description: ok}}}
+  /pets/:
+    get: {responses: {'200': {description: ok}, '404': {$ref: '#/components/responses/Err'}}}
+  /shops:
+    get: {responses: {'200': {description: ok}, '400': {$ref: '#/components/responses/Err'}}}
+  /shops/{id}/:
+    parameters: [{in: path, name: id, required: true, schema: {type: string}}]
+    get: {responses: {'200': {description: ok}, default: {$ref: '#/components/responses/Fallback'}}}
+    delete: {responses: {'204': {description: gone}, default: {$ref: '#/components/responses/Fallback'}}}
+components:
+  schemas:
+    E: {type: object, properties: {message: {type: string}}}
+  responses:
+    Err: {description: err, content: {application/json: {schema: {$ref: '#/components/schemas/E'}}}}
+    Fallback: {description: fb, content: {application/json: {schema: {$ref: '#/components/schemas/E'}}}}
+`
+	return []CorpusEntry{
+		{Name: "resp-matrix", Spec: writeSpec(filepath.Join(dir, "resp-matrix"), "openapi", spec), Group: "response-matrix"},
+		{Name: "resp-trailing", Spec: writeSpec(filepath.Join(dir, "resp-trailing"), "openapi", spec2), Group: "response-matrix"},
+		{Name: "resp-root", Spec: writeSpec(filepath.Join(dir, "resp-root"), "openapi", specHead+`paths:
+  /:
+    get: {responses: {'200': {description: ok}, '404': {$ref: '#/components/responses/Err'}}}
+    post: {responses: {default: {$ref: '#/components/responses/Err2'}}}
+  /x:
+    get: {responses: {'200': {description: ok}, '404': {$ref: '#/components/responses/Err'}}}
+components:
+  schemas:
+    E: {type: object, properties: {message: {type: string}}}
+  responses:
+    Err: {description: err, content: {application/json: {schema: {$ref: '#/components/schemas/E'}}}}
+    Err2: {description: err, content: {application/json: {schema: {$ref: '#/components/schemas/E'}}}}
+`), Group: "response-matrix"},
+	}
 }
